@@ -1395,6 +1395,7 @@ class xRFM:
         self.n_classes_ = state_dict['n_classes']
         self.extra_rfm_params_ = state_dict['extra_rfm_params_']
         self.solver = state_dict.get('solver', None)
+        self.split_temperature = state_dict.get('split_temperature', self.split_temperature)
 
         if self.n_classes_ > 0:
             self.classification_mode = state_dict['classification_mode']
@@ -1483,6 +1484,7 @@ class xRFM:
             'categorical_info': self.categorical_info,
             'param_trees': param_trees,
             'n_classes': self.n_classes_,
+            'split_temperature': self.split_temperature,
         }
 
         if 'solver' in self.rfm_params['fit']:
